@@ -5,6 +5,7 @@ use crate::api::{FrameAst, ThrowableAst, TraceAst};
 use crate::engine::{fnv64, guarded, Check, Ctx, Fail, Report, Stats};
 use crate::gen::trace::{self, NamePool};
 use proptest::prelude::*;
+use proptest::sample::select;
 use serde::{Deserialize, Serialize};
 use serde_json::{json, Value};
 
@@ -120,10 +121,22 @@ pub enum Case {
 
 pub fn case() -> BoxedStrategy<Case> {
     let p = pool();
+    // long messages / class names around 16-bit and LEB-style length boundaries
+    let long_thr = (select(&[255usize, 256, 4096, 65535, 65536, 65537, 100_000][..]), trace::throwable(&p), any::<bool>()).prop_map(|(n, mut t, in_class)| {
+        if in_class {
+            t.class = format!("a.{}", "b".repeat(n));
+        } else {
+            t.message = Some(format!("m{}:", "x: ".repeat(n / 3)));
+        }
+        Case::Trace(TraceAst { exception: Some(t), frames: vec![], cause: None })
+    });
     prop_oneof![
-        6 => trace::trace(&p, 20, 4).prop_map(Case::Trace),
-        2 => trace::frame(&p).prop_map(Case::Frame),
-        2 => trace::throwable(&p).prop_map(Case::Throwable),
+        60 => trace::trace(&p, 20, 4).prop_map(Case::Trace),
+        1 => trace::deep_trace(&p).prop_map(Case::Trace),
+        1 => trace::long_trace(&p).prop_map(Case::Trace),
+        1 => long_thr,
+        20 => trace::frame(&p).prop_map(Case::Frame),
+        20 => trace::throwable(&p).prop_map(Case::Throwable),
     ]
     .boxed()
 }
